@@ -89,6 +89,17 @@ def correspond(model_ok, res):
                {"shop": {"owner": ["name"], "owner.pet": ["kind"]}, "author.book": {"title": None, "isbn": None}, "author.name": None}):
         for extra in ({}, {"object_fields": ["x.y"], "sub_fields": []}):
             sessions.append((dict(extra, nested_fields=nf), [parser.parse(q) for q in dq], "dotted-spec-key-order"))
+    # a declared field four levels deep, addressed by every spelling (dots, colons, groups, mixed); the names on the way
+    # are containers; strict configurations (object and sub fields both declared)
+    deepq = ["company.address.geo.city:paris", "company:address:geo:city:paris", "company.address:(geo.city:paris)",
+             "company:(address:(geo:(city:paris)))", "company:(address.geo.city:paris)", "company.address.geo:(city:paris AND city:x)",
+             "company.address.geo:x", "company.address:x", "company:x", "company.address.geo.town:x", "company:address:geo:town:x",
+             "title.raw:x", "title:(raw:x)", "title.rw:x"]
+    for cfg in ({"object_fields": ["company.address.geo.city"], "sub_fields": ["title.raw"]},
+                {"object_fields": {"company": {"address": {"geo": {"city": None}}}}, "sub_fields": ["title.raw"]},
+                {"nested_fields": {"company": {"address": {"geo": ["city"]}}}, "object_fields": [], "sub_fields": []},
+                {"nested_fields": {"company": {"address": {"geo": ["city"]}}}, "object_fields": ["x.y"], "sub_fields": ["title.raw"]}):
+        sessions.append((cfg, [parser.parse(q) for q in deepq], "deep-declared-field-every-spelling"))
     sessions += E.builder_sessions(r, T, n)
     stats = {"oracle_cases": 0, "predicted": {"field": 0, "mix": 0, "ok": 0}, "F8": 0}
 
